@@ -117,6 +117,7 @@ type Sim struct {
 	Strategy   int
 	pctChanges []int
 	starveKey  string
+	starveOneIn int
 	stickyNum  int
 
 	// granularity yields enabled for these package ids
@@ -176,6 +177,9 @@ func (s *Sim) ChooseStrategy() {
 		}
 	case StratStarve:
 		s.starveKey = ""
+		// how often the victim still gets a turn although others are eligible:
+		// 1 in 16, 1 in 512, or never (strict: it runs only when nothing else can)
+		s.starveOneIn = []int{16, 512, 0}[s.T.Aux.intn(3)]
 	case StratSticky:
 		s.stickyNum = 2 + s.T.Aux.intn(30)
 	}
@@ -656,7 +660,7 @@ func (s *Sim) strategyPick(names []string) int {
 		}
 		return bi
 	case StratStarve:
-		if s.starveKey != "" && a.intn(16) != 0 {
+		if s.starveKey != "" && (s.starveOneIn == 0 || a.intn(s.starveOneIn) != 0) {
 			var ok []int
 			for i, nm := range names {
 				if !strings.Contains(nm, s.starveKey) {
